@@ -367,22 +367,11 @@ class DiGraphEx(nx.DiGraph):
 
         The compound priority is the sum of the priorities of all children recursively.
         """
-        # 1. start from bottom up
-        leaf_ids = set(self.leaf_nodes)
+        # the table holds the own priority of every node when this method is called
+        own_priority = {node_id: self.compound_priority[node_id] for node_id in self.nodes}
 
-        # 2. assign the compound priority for all the remaining nodes in the graph:
-        # Priority assignment happens by epochs:
-        # 2.1. during every epoch, we assign the compound priority for the parents of the current leaf nodes
-
-        while leaf_ids:
-            next_leaf_ids = set()
-            for leaf_id in leaf_ids:
-                compound_priority = self.compound_priority[leaf_id]
-
-                # for parent nodes, this loop won't execute
-                for parent_id in self.predecessors(leaf_id):
-                    # increment the compound_priority of the parent node by the leaf priority
-                    self.compound_priority[parent_id] += compound_priority
-
-                    next_leaf_ids.add(parent_id)
-            leaf_ids = next_leaf_ids
+        # every descendant is counted exactly once, however many paths lead to it
+        for node_id, priority in own_priority.items():
+            self.compound_priority[node_id] = priority + sum(
+                own_priority[descendant_id] for descendant_id in nx.descendants(self, node_id)
+            )
